@@ -37,6 +37,8 @@ def parse(prog):
         items.append(('T',))
       elif k == 'K':
         items.append(('K', op['s']))
+      elif k == 'N':
+        items.append(('N',))
       else:
         raise ValueError(op)
     return tuple(items), False      # unterminated (init raised before the end)
@@ -110,6 +112,12 @@ class Scripted(nn.Module):
         if not self.quiet:
           log.append({'k': 'key', 'v': key_bytes(key)})
         acc = acc * 31 + jnp.sum(jnp.asarray(jax.random.key_data(key), jnp.uint32))
+      elif k == 'N':
+        # an unrelated module applied inside this method (teacher / feature-extractor pattern): a pure call with its own settings
+        y, st = TEACHER.apply({'params': {'w': jnp.asarray(3, jnp.int32)}}, mutable=['intermediates'])
+        n = len(jax.tree_util.tree_leaves(st))
+        log.append({'k': 'nested', 'n': n})
+        acc = acc * 31 + jnp.asarray(n, jnp.uint32) + jnp.asarray(y, jnp.uint32)
       elif k == 'E':
         _, cl, name, sub, again = item
         cls = CLASSES[cl]
@@ -121,6 +129,17 @@ class Scripted(nn.Module):
           acc = acc * 31 + child(log)
         log.append({'k': 'leave'})
     return acc
+
+
+class Teacher(nn.Module):
+  @nn.compact
+  def __call__(self):
+    w = self.param('w', lambda k: jnp.asarray(3, jnp.int32))
+    self.sow('intermediates', 'feat', w * 2)
+    return w + 1
+
+
+TEACHER = Teacher()
 
 
 class _Null:
